@@ -44,6 +44,7 @@ import (
 	"github.com/kubewharf/kubebrain/pkg/server/brain"
 	"github.com/kubewharf/kubebrain/pkg/server/etcd"
 	"github.com/kubewharf/kubebrain/pkg/server/service"
+	"github.com/kubewharf/kubebrain/pkg/server/service/etcdproxy"
 	"github.com/kubewharf/kubebrain/pkg/server/service/leader"
 	"github.com/kubewharf/kubebrain/pkg/server/service/revision"
 	imemkv "github.com/kubewharf/kubebrain/pkg/storage/memkv"
@@ -1215,6 +1216,7 @@ type fwdScen struct {
 	seq       int
 	// delay (ms) of the leader's handler of new Watch streams (`fwd watch delay=`)
 	watchDelayMs int64
+	leaderAddr   string
 }
 
 var (
@@ -1231,7 +1233,7 @@ func getFwdScen() *fwdScen {
 		panic(err)
 	}
 	addr := lis.Addr().String()
-	f := &fwdScen{rec: &recBackend{}}
+	f := &fwdScen{rec: &recBackend{}, leaderAddr: addr}
 	lb := backend.NewBackend(imemkv.NewKvStorage(), backend.Config{Prefix: "/r", Identity: addr, WatchCacheSize: 64}, getMetrics())
 	lb.SetCurrentRevision(1000)
 	lp := service.NewPeerService(&leader.Stub{ElectionInfo: leader.ElectionInfo{IsLeader: true, LeaderAddress: addr}},
@@ -1336,12 +1338,61 @@ func (f *fwdScen) watch(opts map[string]string) string {
 	return fmt.Sprintf("fwd watch created delivered=%d local=-", delivered)
 }
 
+// noleader: a fresh etcd proxy of a follower that knows NO leader yet refuses a watch as unavailable; once the election names
+// the leader, a forwarded transaction must go through again (a refusal must not leave the proxy wedged)
+func (f *fwdScen) noleader(opts map[string]string) string {
+	key := []byte(fmt.Sprintf("/r/n%04d-%04d", fwdEpoch, atoi(opts["k"])))
+	el := &scriptElection{leader: false, addr: ""}
+	px := etcdproxy.NewEtcdProxy(el, nil)
+	refused := 0
+	for i := 0; i < 3; i++ { // more than one refused request: each must leave the proxy usable
+		ctx, cancel := context.WithTimeout(context.Background(), 2*time.Second)
+		_, err := px.Watch(ctx, string(key), 0)
+		cancel()
+		if err != nil {
+			refused++
+		}
+	}
+	el.mu.Lock()
+	el.addr = f.leaderAddr
+	el.mu.Unlock()
+	recovered := 0
+	deadline := time.Now().Add(12 * time.Second)
+	for time.Now().Before(deadline) && recovered == 0 {
+		done := make(chan error, 1)
+		go func() {
+			ctx, cancel := context.WithTimeout(context.Background(), 2*time.Second)
+			defer cancel()
+			_, err := px.Txn(ctx, &etcdserverpb.TxnRequest{
+				Compare: []*etcdserverpb.Compare{{Target: etcdserverpb.Compare_MOD, Result: etcdserverpb.Compare_EQUAL, Key: key,
+					TargetUnion: &etcdserverpb.Compare_ModRevision{ModRevision: 0}}},
+				Success: []*etcdserverpb.RequestOp{{Request: &etcdserverpb.RequestOp_RequestPut{RequestPut: &etcdserverpb.PutRequest{Key: key, Value: []byte("n")}}}}})
+			done <- err
+		}()
+		select {
+		case err := <-done:
+			if err == nil {
+				recovered = 1
+			} else {
+				time.Sleep(200 * time.Millisecond)
+			}
+		case <-time.After(4 * time.Second):
+			// the call outlived its own context: the proxy does not answer at all
+			return fmt.Sprintf("fwd noleader refused=%d recovered=0 hung=1", refused)
+		}
+	}
+	return fmt.Sprintf("fwd noleader refused=%d recovered=%d hung=0", refused, recovered)
+}
+
 func (f *fwdScen) do(shape string, opts map[string]string) string {
 	if _, ok := opts["k"]; !ok {
 		return "fwd bad-op"
 	}
 	if shape == "watch" {
 		return f.watch(opts)
+	}
+	if shape == "noleader" {
+		return f.noleader(opts)
 	}
 	key := []byte(fmt.Sprintf("/r/f%04d-%04d", fwdEpoch, atoi(opts["k"])))
 	f.seq++
